@@ -6,6 +6,8 @@ import ColoVerif.Proofs.C09Hpwl
 import ColoVerif.Proofs.IncrNetRun
 import ColoVerif.Proofs.IncrNetPinOffsets
 import ColoVerif.Proofs.IncrNetPlacer
+import ColoVerif.Proofs.GeomTie
+import ColoVerif.Proofs.CheckedHpwl
 /-
 C09 — wirelength is geometrically exact and incrementally consistent.
 
@@ -113,6 +115,24 @@ theorem hpwl_is_bbox_sum (c : Circuit) (h : CellsOk c) :
 
 example : CellsOk ⟨[⟨4, 2, 0, 0, .N, false, false, .ANY⟩, ⟨3, 2, 10, 5, .W, false, false, .ANY⟩],
     [⟨1, 0, [⟨0, 1, 1⟩, ⟨1, 0, 2⟩]⟩], []⟩ := by decide
+
+/-- **The reported value is the mathematical one, as compiled.**  `Checked.hpwlC` is the expression
+tree of `Circuit::hpwl()` with every `int` operation (pin offset `placedWidth − offs`, `x(cell) + offset`,
+`maxX − minX`) and every `long long` accumulation checked for overflow (executed by `drv_C09` against the
+real function under UBSan on the `h<k>` cases, coordinates up to ±8·10^8).  On `HpwlDom` — cell origins
+within ±8·10^8, cell sizes and pin offsets within ±10^8, at most 2^30 nets — no operation overflows and
+the result is the unbounded `Circuit.hpwl` of `hpwl_is_bbox_sum`.  The two extents of a net are added to
+the 64-bit total separately: a net may be 1.2·10^9 wide and high (witness: `hpwlC = 2.4·10^9`), where an
+`int` sum `width + height` taken first would overflow (`netHpwlSum32C`, not the code, faults there). -/
+theorem hpwl_no_overflow (c : Circuit) (h : Checked.HpwlDom c) : Checked.hpwlC c = .ok c.hpwl :=
+  Checked.hpwlC_ok c h
+
+theorem hpwl_no_overflow_witness :
+    Checked.HpwlDom Checked.diagonalWitness ∧
+    Checked.hpwlC Checked.diagonalWitness = .ok 2400000000 ∧
+    Checked.netHpwlSum32C Checked.diagonalWitness 0 (Checked.diagonalWitness.nets.getD 0 default)
+      = .error (.intOverflow "width() + height()") :=
+  ⟨Checked.diagonalWitness_in_dom, Checked.diagonalWitness_hpwl, Checked.hpwl_sum32_can_fault⟩
 
 /-! ### the incremental model -/
 
@@ -249,5 +269,24 @@ example :
                         [⟨1, 0, [⟨0, 1, 1⟩, ⟨1, 0, 2⟩, ⟨2, 5, 5⟩, ⟨1, 1, 1⟩]⟩, ⟨1, 0, [⟨0, 0, 0⟩]⟩, ⟨1, 0, [⟨0, 0, 0⟩, ⟨2, 0, 0⟩]⟩], []⟩
     (IncrNet.yTopology c [1]).value = 13 ∧ (IncrNet.run (IncrNet.yTopology c [1]) [(0, 100), (0, -50)]).value = 61 := by
   decide
+
+/-- The hand-written shared geometry `Circuit.hpwl`, `IncrNet.*` and the theorems above are stated in
+(`Cell.placedWidth / placedHeight / placement`, `Circuit.pinXOffset / pinYOffset`, the accessors
+`x / y / orientation`, `isTurn`, `Rect.mk`, and `Expand.cellArea` for `Circuit::area`) is *translated from the
+C++ source*: the definitions of `Gen/GeomFns.lean`, regenerated on every run from the clang AST of the
+whole bodies of these functions (not only their flip sets, as `Gen/OrientTables` does), are equal as
+functions to the hand-written ones.  A semantic change of one of these bodies breaks this theorem. -/
+theorem geometry_layer_translated :
+    Gen.Geom.isTurn = Orient.isTurn ∧
+    Gen.Geom.Circuit_x = Cell.x ∧ Gen.Geom.Circuit_y = Cell.y ∧ Gen.Geom.Circuit_orientation = Cell.orient ∧
+    Gen.Geom.Circuit_placedWidth = Cell.placedWidth ∧ Gen.Geom.Circuit_placedHeight = Cell.placedHeight ∧
+    Gen.Geom.Circuit_pinXOffset = Circuit.pinXOffset ∧ Gen.Geom.Circuit_pinYOffset = Circuit.pinYOffset ∧
+    Gen.Geom.Rectangle_ctor = Rect.mk ∧ Gen.Geom.Circuit_placement = Cell.placement ∧
+    Gen.Geom.Circuit_area = Expand.cellArea :=
+  ⟨GeomTie.gen_isTurn_eq_model, GeomTie.gen_Circuit_x_eq_model, GeomTie.gen_Circuit_y_eq_model,
+   GeomTie.gen_Circuit_orientation_eq_model, GeomTie.gen_Circuit_placedWidth_eq_model,
+   GeomTie.gen_Circuit_placedHeight_eq_model, GeomTie.gen_Circuit_pinXOffset_eq_model,
+   GeomTie.gen_Circuit_pinYOffset_eq_model, GeomTie.gen_Rectangle_ctor_eq_model,
+   GeomTie.gen_Circuit_placement_eq_model, GeomTie.gen_Circuit_area_eq_model⟩
 
 end ColoVerif.C09
